@@ -1248,13 +1248,10 @@ package hashgraph
 // StoreErr. What is proved is the dispatch: a write that succeeds outside maintenance mode is in the database, a
 // refused or failed write leaves the database as it was, a read prefers the live cached object, falls through to
 // the database on any cache error, and reports KeyNotFound only for a key that is in neither.
-//@ ghost field *BadgerStore dbBlocks gmap[int, *Block]
 //@ ghost field *BadgerStore dbRoots gmap[string, *Root]
-//@ ghost field *BadgerStore dbRounds gmap[int, *RoundInfo]
-//@ ghost field *BadgerStore dbFrames gmap[int, *Frame]
 //@ ghost field *BadgerStore dbPE int
 //@ ghost opaque func EvDecoded(data []byte, e *Event) bool
-//@ ghost opaque func BlockSame(a *Block, b *Block) bool
+//@ ghost opaque func BlockDecoded(data []byte, b *Block) bool
 //@ ghost opaque func RootSame(a *Root, b *Root) bool
 //@ ghost opaque func IsDbNF(err error) bool
 //@ ghost opaque func DbPEList(v int, participant string, skip int) []string
@@ -1373,32 +1370,52 @@ package hashgraph
 //@   trusted Badger read + Block.Unmarshal: a committed record decodes to the content that was written; errors are Badger's or the codec's
 //@   requires s != nil
 //@   modifies nothing
-//@   ensures[hit]  ret1 == nil ==> ret0 != nil && __in(index, G_dbBlocks(s)) && BlockSame(ret0, G_dbBlocks(s)[index])
-//@   ensures[nf]   ret1 != nil && IsDbNF(ret1) ==> !__in(index, G_dbBlocks(s))
+//@   ensures[hit]  ret1 == nil ==> ret0 != nil && __in(string(blockKey(index)), G_raw(s.db)) && BlockDecoded(G_raw(s.db)[string(blockKey(index))], ret0)
+//@   ensures[nf]   ret1 != nil && IsDbNF(ret1) ==> !__in(string(blockKey(index)), G_raw(s.db))
 //@   ensures[err]  ret1 != nil ==> ret0 == nil && !common.IsStore(ret1, common.KeyNotFound)
 
+//@ func (b *Block) Marshal() ([]byte, error)
+//@   trusted encoding/json encoder: reads the block, writes nothing
+//@   requires b != nil
+//@   modifies nothing
+
+//@ func (r *RoundInfo) Marshal() ([]byte, error)
+//@   trusted codec encoder: reads the round, writes nothing
+//@   requires r != nil
+//@   modifies nothing
+
+//@ func (f *Frame) Marshal() ([]byte, error)
+//@   trusted codec encoder: reads the frame, writes nothing
+//@   requires f != nil
+//@   modifies nothing
+
+// The single-record writers are verified against the transaction model: under the record's key the database holds
+// exactly the bytes that Marshal of THAT object returned in this call, every other record is untouched, and a failure
+// leaves the database as it was. (What Marshal produces is the codec's business.)
 //@ func (s *BadgerStore) dbSetBlock(block *Block) error
-//@   trusted one Badger transaction
-//@   requires s != nil && block != nil
-//@   modifies G_dbBlocks(s)
-//@   ensures[set]  ret0 == nil ==> __eq(G_dbBlocks(s), __upd(old(G_dbBlocks(s)), block.Body.Index, block))
-//@   ensures[fail] ret0 != nil ==> __eq(G_dbBlocks(s), old(G_dbBlocks(s)))
+//@   requires s != nil && s.db != nil && block != nil
+//@   modifies G_raw(s.db), anyghost hashgraph.pend
+//@   call Marshal assert[of-block] __recv() == block
+//@   call Set assert[record] string(__argT[[]byte](0)) == string(blockKey(block.Body.Index)) && __samebytes(__argT[[]byte](1), __lastretT[[]byte]("Marshal", 0))
+//@   ensures[written] ret0 == nil ==> __in(string(blockKey(block.Body.Index)), G_raw(s.db))
+//@   ensures[others]  forall k string :: k != string(blockKey(block.Body.Index)) ==> __in(k, G_raw(s.db)) == old(__in(k, G_raw(s.db))) && __seqeq(G_raw(s.db)[k], old(G_raw(s.db))[k])
+//@   ensures[fail]    ret0 != nil ==> __eq(G_raw(s.db), old(G_raw(s.db)))
 
 //@ func (s *BadgerStore) GetBlock(rr int) (*Block, error)
 //@   requires s != nil && s.ok()
 //@   modifies nothing
 //@   ensures[cache-first] __in(interface{}(rr), common.G_m(s.inmemStore.blockCache)) ==> ret1 == nil && ret0 == G_blocks(s.inmemStore)[rr]
-//@   ensures[value]       ret1 == nil ==> ret0 != nil && ((__in(rr, G_blocks(s.inmemStore)) && ret0 == G_blocks(s.inmemStore)[rr]) || (__in(rr, G_dbBlocks(s)) && BlockSame(ret0, G_dbBlocks(s)[rr])))
-//@   ensures[notfound]    common.IsStore(ret1, common.KeyNotFound) ==> !__in(interface{}(rr), common.G_m(s.inmemStore.blockCache)) && !__in(rr, G_dbBlocks(s))
+//@   ensures[value]       ret1 == nil ==> ret0 != nil && ((__in(rr, G_blocks(s.inmemStore)) && ret0 == G_blocks(s.inmemStore)[rr]) || (__in(string(blockKey(rr)), G_raw(s.db)) && BlockDecoded(G_raw(s.db)[string(blockKey(rr))], ret0)))
+//@   ensures[notfound]    common.IsStore(ret1, common.KeyNotFound) ==> !__in(interface{}(rr), common.G_m(s.inmemStore.blockCache)) && !__in(string(blockKey(rr)), G_raw(s.db))
 //@   ensures[err]         ret1 != nil ==> ret0 == nil
 
 //@ func (s *BadgerStore) SetBlock(block *Block) error
 //@   requires s != nil && s.ok() && block != nil && block.Signatures != nil
-//@   modifies common.G_m(s.inmemStore.blockCache), s.inmemStore.lastBlock, G_blocks(s.inmemStore), G_bodies(s.inmemStore), G_lastBlock(s.inmemStore), G_fault(s.inmemStore), G_dbBlocks(s)
-//@   ensures[write-through] ret0 == nil && !s.maintenanceMode ==> __eq(G_dbBlocks(s), __upd(old(G_dbBlocks(s)), block.Body.Index, block))
+//@   modifies common.G_m(s.inmemStore.blockCache), s.inmemStore.lastBlock, G_blocks(s.inmemStore), G_bodies(s.inmemStore), G_lastBlock(s.inmemStore), G_fault(s.inmemStore), G_raw(s.db), anyghost hashgraph.pend
+//@   ensures[write-through] ret0 == nil && !s.maintenanceMode ==> __in(string(blockKey(block.Body.Index)), G_raw(s.db))
 //@   ensures[cache]         ret0 == nil ==> __eq(G_blocks(s.inmemStore), __upd(old(G_blocks(s.inmemStore)), block.Body.Index, block))
-//@   ensures[maintenance]   s.maintenanceMode ==> __eq(G_dbBlocks(s), old(G_dbBlocks(s)))
-//@   ensures[failed]        ret0 != nil ==> __eq(G_dbBlocks(s), old(G_dbBlocks(s)))
+//@   ensures[maintenance]   s.maintenanceMode ==> __eq(G_raw(s.db), old(G_raw(s.db)))
+//@   ensures[failed]        ret0 != nil ==> __eq(G_raw(s.db), old(G_raw(s.db)))
 //@   ensures[ok]            s.ok()
 
 //@ func (s *BadgerStore) dbGetRoot(participant string) (*Root, error)
@@ -1417,35 +1434,39 @@ package hashgraph
 //@   ensures[notfound]    common.IsStore(ret1, common.KeyNotFound) ==> !__in(participant, s.inmemStore.roots) && !__in(participant, G_dbRoots(s))
 
 //@ func (s *BadgerStore) dbSetRound(index int, round *RoundInfo) error
-//@   trusted one Badger transaction
-//@   requires s != nil && round != nil
-//@   modifies G_dbRounds(s)
-//@   ensures[set]  ret0 == nil ==> __eq(G_dbRounds(s), __upd(old(G_dbRounds(s)), index, round))
-//@   ensures[fail] ret0 != nil ==> __eq(G_dbRounds(s), old(G_dbRounds(s)))
+//@   requires s != nil && s.db != nil && round != nil
+//@   modifies G_raw(s.db), anyghost hashgraph.pend
+//@   call Marshal assert[of-round] __recv() == round
+//@   call Set assert[record] string(__argT[[]byte](0)) == string(roundKey(index)) && __samebytes(__argT[[]byte](1), __lastretT[[]byte]("Marshal", 0))
+//@   ensures[written] ret0 == nil ==> __in(string(roundKey(index)), G_raw(s.db))
+//@   ensures[others]  forall k string :: k != string(roundKey(index)) ==> __in(k, G_raw(s.db)) == old(__in(k, G_raw(s.db))) && __seqeq(G_raw(s.db)[k], old(G_raw(s.db))[k])
+//@   ensures[fail]    ret0 != nil ==> __eq(G_raw(s.db), old(G_raw(s.db)))
 
 //@ func (s *BadgerStore) SetRound(r int, round *RoundInfo) error
 //@   requires s != nil && s.ok() && round != nil && round.CreatedEvents != nil
-//@   modifies common.G_m(s.inmemStore.roundCache), s.inmemStore.lastRound, G_rounds(s.inmemStore), G_fault(s.inmemStore), G_dbRounds(s)
-//@   ensures[write-through] ret0 == nil && !s.maintenanceMode ==> __eq(G_dbRounds(s), __upd(old(G_dbRounds(s)), r, round))
+//@   modifies common.G_m(s.inmemStore.roundCache), s.inmemStore.lastRound, G_rounds(s.inmemStore), G_fault(s.inmemStore), G_raw(s.db), anyghost hashgraph.pend
+//@   ensures[write-through] ret0 == nil && !s.maintenanceMode ==> __in(string(roundKey(r)), G_raw(s.db))
 //@   ensures[cache]         ret0 == nil ==> __eq(G_rounds(s.inmemStore), __upd(old(G_rounds(s.inmemStore)), r, round))
-//@   ensures[maintenance]   s.maintenanceMode ==> __eq(G_dbRounds(s), old(G_dbRounds(s)))
-//@   ensures[failed]        ret0 != nil ==> __eq(G_dbRounds(s), old(G_dbRounds(s)))
+//@   ensures[maintenance]   s.maintenanceMode ==> __eq(G_raw(s.db), old(G_raw(s.db)))
+//@   ensures[failed]        ret0 != nil ==> __eq(G_raw(s.db), old(G_raw(s.db)))
 //@   ensures[ok]            s.ok()
 
 //@ func (s *BadgerStore) dbSetFrame(frame *Frame) error
-//@   trusted one Badger transaction
-//@   requires s != nil && frame != nil
-//@   modifies G_dbFrames(s)
-//@   ensures[set]  ret0 == nil ==> __eq(G_dbFrames(s), __upd(old(G_dbFrames(s)), frame.Round, frame))
-//@   ensures[fail] ret0 != nil ==> __eq(G_dbFrames(s), old(G_dbFrames(s)))
+//@   requires s != nil && s.db != nil && frame != nil
+//@   modifies G_raw(s.db), anyghost hashgraph.pend
+//@   call Marshal assert[of-frame] __recv() == frame
+//@   call Set assert[record] string(__argT[[]byte](0)) == string(frameKey(frame.Round)) && __samebytes(__argT[[]byte](1), __lastretT[[]byte]("Marshal", 0))
+//@   ensures[written] ret0 == nil ==> __in(string(frameKey(frame.Round)), G_raw(s.db))
+//@   ensures[others]  forall k string :: k != string(frameKey(frame.Round)) ==> __in(k, G_raw(s.db)) == old(__in(k, G_raw(s.db))) && __seqeq(G_raw(s.db)[k], old(G_raw(s.db))[k])
+//@   ensures[fail]    ret0 != nil ==> __eq(G_raw(s.db), old(G_raw(s.db)))
 
 //@ func (s *BadgerStore) SetFrame(frame *Frame) error
 //@   requires s != nil && s.ok() && frame != nil && FrameWF(frame)
-//@   modifies common.G_m(s.inmemStore.frameCache), G_frames(s.inmemStore), G_fault(s.inmemStore), G_dbFrames(s)
-//@   ensures[write-through] ret0 == nil && !s.maintenanceMode ==> __eq(G_dbFrames(s), __upd(old(G_dbFrames(s)), frame.Round, frame))
+//@   modifies common.G_m(s.inmemStore.frameCache), G_frames(s.inmemStore), G_fault(s.inmemStore), G_raw(s.db), anyghost hashgraph.pend
+//@   ensures[write-through] ret0 == nil && !s.maintenanceMode ==> __in(string(frameKey(frame.Round)), G_raw(s.db))
 //@   ensures[cache]         ret0 == nil ==> __eq(G_frames(s.inmemStore), __upd(old(G_frames(s.inmemStore)), frame.Round, frame))
-//@   ensures[maintenance]   s.maintenanceMode ==> __eq(G_dbFrames(s), old(G_dbFrames(s)))
-//@   ensures[failed]        ret0 != nil ==> __eq(G_dbFrames(s), old(G_dbFrames(s)))
+//@   ensures[maintenance]   s.maintenanceMode ==> __eq(G_raw(s.db), old(G_raw(s.db)))
+//@   ensures[failed]        ret0 != nil ==> __eq(G_raw(s.db), old(G_raw(s.db)))
 //@   ensures[ok]            s.ok()
 
 // Per-participant listings: the database's answer is a function of its state (G_dbPE is a version stamp of the
